@@ -236,6 +236,18 @@ def streams(rng, tier):
                     rops.append("display " + gen.head(b0 >> 5, n, width).hex() if (b0 & 31) == 0 else "display " + bytes([b0]).hex() + gen.rand_bytes(rng, 8).hex())
     for n in list(range(0, 70)) + [96, 128, 256, 1024]:
         rops.append("display " + (gen.head(2, n) + bytes(n)).hex()); rops.append("display " + (gen.head(3, n) + b"a" * n).hex())
+    # two and three containers open at once with extreme announced counts, then the input ends (whatever is computed from the counts
+    # still outstanding must not overflow), and tags in front of empty indefinite strings
+    ext = [gen.head(m, n, 8) for m in (4, 5) for n in (2**64 - 1, 2**63, 2**63 - 1, 2**32)] + [gen.head(4, 3), gen.head(5, 2), b"\x9f", b"\xbf"]
+    for a in ext:
+        for b in ext:
+            for tl in (b"", b"\x01", b"\x01\x02", b"\x83\x01"):
+                rops.append("display " + (a + b + tl).hex())
+            for c in ext[:8:3]:
+                rops.append("display " + (a + b + c + b"\x01").hex())
+    for tg in (b"\xc2", b"\xc2\xc3", b"\xd9\xd9\xf7"):
+        for st_ in (b"\x5f\xff", b"\x7f\xff", b"\x5f\x40\xff", b"\x7f\x60\xff"):
+            rops += ["display " + (tg + st_).hex(), "display " + (b"\x82" + tg + st_ + b"\x05").hex(), "display " + (b"\x9f" + tg + st_ + tg + st_ + b"\xff").hex()]
     rops = list(dict.fromkeys(rops))
     def judge_render(op, impl, model, spec):
         if impl.startswith("overflow") or impl in ("panic", "fmt-error") or impl.startswith("crash"):
